@@ -6,7 +6,7 @@
    no overlong form, no encoded surrogate, nothing above U+10FFFF). *)
 From JsonSyntax Require Import Base.Prelude Base.Value Base.Unicode Base.Source Model.Parser Model.EntryPoints
   Spec.Grammar Spec.Utf8Spec Proofs.ParserSpec Proofs.ParserCorollaries Proofs.Utf8Proofs
-  Base.ConstSyntax Generated.Consts Proofs.ConstsTie.
+  Base.ConstSyntax Generated.Consts Proofs.ConstsTie Proofs.ParserSoundLex Proofs.LengthIndependence.
 
 (* text input: accepted iff Strict, for EVERY character sequence *)
 Theorem C01_str : forall cs, Forall (fun c => c <= 0x10FFFF) cs ->
@@ -60,6 +60,18 @@ Example C01_accepts_somewhere :
 Proof. vm_compute. split; [eexists; reflexivity|reflexivity]. Qed.
 
 
+(* the verdict does not depend on the lengths the characters of a source declare (`Parse::parse*` over
+   `DecodedChar`s: UTF-8 lengths, the byte lengths of a UTF-16 or UTF-32 buffer, 0, 2^32 ..): two error-free
+   sources with the same characters are accepted together, under every option record *)
+Theorem C01_verdict_independent_of_declared_lengths : forall o (t t' : list item),
+  Forall (fun it => fst it <= 0x10FFFF) t -> cps t' = cps t ->
+  ((exists v m, parse_with o (map inj t) = Ok (v, m)) <-> (exists v m, parse_with o (map inj t') = Ok (v, m))).
+Proof. exact parse_verdict_independent_of_lengths. Qed.
+Example C01_declared_lengths_example :
+  parse_with strict (map inj [(0x5B, 2); (0x31, 0); (0x5D, 4294967296)]) = Ok (VArr [VNum [0x31]], [(0, 4294967298, 2); (2, 2, 1)])
+  /\ parse_with strict (map inj [(0x5B, 1); (0x31, 1); (0x5D, 1)]) = Ok (VArr [VNum [0x31]], [(0, 3, 2); (1, 2, 1)]).
+Proof. vm_compute. split; reflexivity. Qed.
+
 (* ---- static tie of the constant tables (DESIGN.md section 4, "Translator tie for constant tables"):
    `src_..` (Generated/Consts.v) is what lib/const_translate.py evaluates the named function / constant of
    the Rust source to -- regenerated from the tree under check at the start of every `bin/check` of this
@@ -103,6 +115,8 @@ Print Assumptions C01_bom_rejected.
 Print Assumptions C01_whitespace_exact.
 Print Assumptions C01_slice_rejects_bom.
 Print Assumptions C01_accepts_somewhere.
+Print Assumptions C01_verdict_independent_of_declared_lengths.
+Print Assumptions C01_declared_lengths_example.
 Print Assumptions C01_whitespace_from_source.
 Print Assumptions C01_follows_from_source.
 Print Assumptions C01_control_from_source.
